@@ -21,7 +21,8 @@ from mc.core import Tally
 
 ID = "C01"
 TECHNIQUE = ("exhaustive walk of a finite configuration lattice (modes x channels x reference subset x block rows x "
-             "pole placement x damping profile x fs x record length x Hankel method x route) around a deterministic "
+             "pole placement x damping profile x fs x record length x Hankel method x label-only run parameters and call form of "
+             "the setup route x route) around a deterministic "
              "payload alphabet, every lattice point judged against a ground-truth state-space system")
 LEVEL_TEXT = ("every configuration of the stated lattice is executed on the real code and its poles, damping ratios "
               "and shapes at order 2m are compared with the known system; nothing is sampled")
@@ -34,6 +35,9 @@ ASSUMPTIONS = [
     "tolerances 1e-7 (fn, lambda), 1e-6 (xi), 1e-9 (1-MAC): decades above the worst rounding error observed, decades below any structural fault",
     "quick tier: damping profile, fs, record length and block-row offset are assigned to the primary cells by a fixed rotation that covers every combination; thorough: full product",
     "ordmax is 2m or 2m+2 by a fixed rotation on the case index in both tiers (the judged column is always order 2m)",
+    "setup route: the run parameters that only steer the stabilisation labels (ordmin in {0, 1, 2m-1, 2m, 2m+1 where <= ordmax}, soft criteria sc "
+    "in {library default, nothing stable, everything stable}) and the way the parameters are handed over (keywords | an SSIRunParams object) "
+    "are assigned by fixed rotations on the case index in both tiers; the tables at order 2m and the extraction are judged as everywhere else",
 ]
 
 HC = dict(conj=False, xi_max=10.0, mpc_lim=0.0, mpd_lim=1e9, cov_max=1e9)
@@ -48,6 +52,28 @@ CLASSES = (("raises", "raises"), ("table-shape", "layout"), ("shape-dim", "layou
            ("mpe-shape", "layout"), ("count", "poles"), ("pairing", "poles"), ("lam", "poles"), ("fn", "poles"),
            ("xi", "poles"), ("mpe-fn", "poles"), ("mpe-xi", "poles"), ("mac", "shape"), ("mpe-mac", "shape"),
            ("norm", "normalisation"), ("mpe-norm", "normalisation"))
+
+
+# label-only run parameters of the setup route (they steer Lab, never the pole tables): minimum order relative to 2m and
+# soft criteria; plus the call form (keywords | run-params object). Rotations on the case index, see _label_axes.
+OMIN_ALL = ("0", "1", "2m-1", "2m", "2m+1")
+SC_ALL = {"default": None, "none-stable": dict(err_fn=0.0, err_xi=0.0, err_phi=0.0),
+          "all-stable": dict(err_fn=10.0, err_xi=1e3, err_phi=2.0)}
+FORMS = ("keywords", "run-params-object")
+
+
+def _label_axes(idx):
+    """ordmax excess is 2*(idx % 2); j walks the 10 (ordmin, form) pairs once for each excess within 20 consecutive
+    cases; the soft criteria move every 20 cases (period 60: every (excess, ordmin, form, sc) combination is met)."""
+    j = (idx // 2) % 10
+    return {"omin": OMIN_ALL[j % 5], "form": FORMS[j // 5], "sc": list(SC_ALL)[(idx // 20) % 3]}
+
+
+def ordmin_of(case):
+    """The admissible value: ordmin <= ordmax; '2m+1' with ordmax = 2m falls back to the boundary 2m."""
+    m = case["m"]
+    v = {"0": 0, "1": 1, "2m-1": 2 * m - 1, "2m": 2 * m, "2m+1": 2 * m + 1}[case.get("omin", "0")]
+    return min(v, 2 * m + case["oex"])
 
 
 # ---- lattice ----------------------------------------------------------------------------------------
@@ -96,7 +122,7 @@ def lattice(thorough):
                                 idx = len(decay)
                                 decay.append({"kind": "decay", "idx": idx, "m": m, "l": l, "cm": cm, "refs": list(refs),
                                               "pl": pl, "dp": dp, "fs": fs, "N": N, "bro": bro, "meth": meth,
-                                              "oex": 2 * (idx % 2)})
+                                              "oex": 2 * (idx % 2), **_label_axes(idx)})
                             cell += 1
     cell = 0
     for m in ms:
@@ -226,6 +252,12 @@ def run_decay(t, case, seed):
     t.outcomes[f"method:{meth}"] += 1
     level = LEVELS[case["idx"] % len(LEVELS)]
     t.outcomes[f"response-level:{level:g}"] += 1
+    omin = ordmin_of(case)
+    rel = {o + 1: "2m+1", o: "2m", o - 1: "2m-1"}.get(omin, str(omin))      # m = 1: the value 1 counts as 2m-1
+    t.outcomes[f"setup-ordmin:{rel}(ordmax 2m+{case['oex']})"] += 1
+    t.outcomes[f"setup-sc:{case.get('sc', 'default')}"] += 1
+    t.outcomes[f"setup-params-as:{case.get('form', FORMS[0])}"] += 1
+    t.outcomes[f"setup-ordmin-form:{rel}:{case.get('form', FORMS[0])}:{meth}"] += 1
     Y = level * S.decay(a, N)              # N x l; the level of the initial condition is part of the quantifier
     dt = 1.0 / case["fs"]
     _collider(case, seed, Y.shape, br, om, refs, meth)
@@ -265,7 +297,7 @@ def run_decay(t, case, seed):
         ss = SingleSetup(Y.copy(), case["fs"])
         cls = SSIcov if meth == "cov_mm" else SSIdat
         ref_ind = None if refs == list(range(l)) else [int(i) for i in refs]
-        alg = cls(name="a", method=meth, br=int(br), ordmax=int(om), ref_ind=ref_ind, hc=dict(HC))
+        alg = _make_alg(cls, case, meth, br, om, ref_ind)
         ss.add_algorithms(alg)
         band = _look_band(S)
         if case["idx"] % LOOK_SETUP == 0:       # run, LOOK, then read: the data plots of the setup before the identification
@@ -322,10 +354,24 @@ def _collider(case, seed, shape, br, om, refs, meth):
         ss = SingleSetup(_NOISE[shape].copy(), case["fs"])
         cls = SSIcov if meth == "cov_mm" else SSIdat
         ref_ind = None if refs == list(range(l)) else [int(i) for i in refs]
-        ss.add_algorithms(cls(name="a", method=meth, br=int(br), ordmax=int(om), ref_ind=ref_ind, hc=dict(HC)))
+        ss.add_algorithms(_make_alg(cls, case, meth, br, om, ref_ind))
         ss.run_by_name("a")
     except Exception:
         pass
+
+
+def _make_alg(cls, case, meth, br, om, ref_ind):
+    """The algorithm object of the setup route. The label-only run parameters (ordmin, sc) are left out when they are at
+    their default ('0', 'default') and given otherwise; all parameters go in as keywords or inside an SSIRunParams object."""
+    kw = dict(method=meth, br=int(br), ordmax=int(om), ref_ind=ref_ind, hc=dict(HC))
+    if case.get("omin", "0") != "0":
+        kw["ordmin"] = int(ordmin_of(case))
+    sc = SC_ALL[case.get("sc", "default")]
+    if sc is not None:
+        kw["sc"] = dict(sc)
+    if case.get("form", FORMS[0]) == FORMS[0]:
+        return cls(name="a", **kw)
+    return cls(name="a", run_params=cls.RunParamCls(**kw))
 
 
 def run_exact(t, case, seed):
@@ -407,6 +453,12 @@ def explore(ctx):
         "block_rows": "max(ceil(2m/l), ceil(2m/r)) + 1 + offset, offset in " + str(list(BRO_ALL)),
         "placement": list(T.PLACEMENTS), "damping": list(T.DAMPINGS), "fs": list(FS_ALL), "record_length": list(N_ALL),
         "method": list(METHODS), "ordmax": "2m + {0,2} by rotation on the case index",
+        "setup_route_label_only_run_parameters": {
+            "ordmin": list(OMIN_ALL) + ["'2m+1' with ordmax 2m is replaced by 2m (ordmin <= ordmax); '0' = keyword left out"],
+            "sc": {k: (v if v is not None else "left out (library default)") for k, v in SC_ALL.items()},
+            "parameters_given_as": list(FORMS),
+            "assignment": "rotation on the case index: (ordmin, form) = pair (idx//2) % 10, sc = (idx//20) % 3; every combination "
+                          "with the ordmax excess is met every 60 cases; the noise run of the forced collision uses the same parameters"},
         "routes": ["setup(SSIcov|SSIdat)+mpe", "func(build_hank,SSI_fast,SSI_poles)", "legacy(build_hank,SSI,ac2mp)",
                    "exact-H(SSI_fast+SSI_poles)", "exact-H(SSI+ac2mp)"],
         "exact_H_reference_columns_r": {str(l): r_values(l) for l in L_ALL},
@@ -424,6 +476,11 @@ def explore(ctx):
     ctx.tally.sample({"note": "lattice sizes", "free_decay_cases": len(decay), "exact_H_cases": len(exact)})
     ctx.require("response-level:1", "response-level:3e-08", "response-level:200000", "func:agree", "legacy:agree", "setup:agree", "mpe:agree", "exact-fast:agree", "exact-legacy:agree",
                 "shapes:complex", "shapes:real", "refs:proper-subset", "refs:all", "method:cov_mm", "method:dat",
+                "setup-ordmin:0(ordmax 2m+0)", "setup-ordmin:0(ordmax 2m+2)", "setup-ordmin:2m-1(ordmax 2m+0)",
+                "setup-ordmin:2m-1(ordmax 2m+2)", "setup-ordmin:2m(ordmax 2m+0)", "setup-ordmin:2m(ordmax 2m+2)",
+                "setup-ordmin:2m+1(ordmax 2m+2)", "setup-sc:default", "setup-sc:none-stable", "setup-sc:all-stable",
+                "setup-params-as:keywords", "setup-params-as:run-params-object",
+                *[f"setup-ordmin-form:{o_}:{f_}:{m_}" for o_ in ("0", "2m-1", "2m", "2m+1") for f_ in FORMS for m_ in METHODS],
                 "looked-at-algorithm-before-reading:plot_stab", "looked-at-algorithm-before-reading:plot_cluster",
                 "looked-at-algorithm-before-reading:plot_svalH", "looked-at-setup-before-run:plot_ch_info",
                 "looked-at-setup-before-run:plot_data", "looked-at-setup-before-run:plot_STFT")
